@@ -807,6 +807,42 @@ def _extra(res, rep, kind, prefix, floor):
     return n
 
 
+def _leaves_loop_via_flag(body, start, loop, limit=12):
+    """from block `start`, following straight-line control flow and deciding switches on locals that were assigned a constant on the way,
+    is the loop left before any back edge is taken?"""
+    consts = {}
+    cur = start
+    seen = set()
+    for _ in range(limit):
+        if cur not in loop:
+            return True
+        if cur in seen:
+            return False
+        seen.add(cur)
+        blk = body.blocks[cur]
+        for st in blk["stmts"]:
+            if st["k"] == "assign" and not st["place"]["proj"]:
+                rv = st["rv"]
+                if rv["k"] == "use" and rv["op"].get("k") == "const" and isinstance(rv["op"].get("v"), (int, bool)):
+                    consts[st["place"]["local"]] = int(rv["op"]["v"])
+                elif rv["k"] == "use" and rv["op"].get("k") in ("copy", "move") and not rv["op"]["place"]["proj"] and rv["op"]["place"]["local"] in consts:
+                    consts[st["place"]["local"]] = consts[rv["op"]["place"]["local"]]
+                else:
+                    consts.pop(st["place"]["local"], None)
+        t = blk["term"]
+        if t["k"] == "goto":
+            cur = t["target"]
+        elif t["k"] == "switch" and t["discr"].get("k") in ("copy", "move") and not t["discr"]["place"]["proj"] and t["discr"]["place"]["local"] in consts:
+            val = consts[t["discr"]["place"]["local"]]
+            nxt = next((tg for v, tg in t["targets"] if v == val), None)
+            cur = nxt if nxt is not None else t["otherwise"]
+        elif t["k"] in ("drop",) and t.get("target") is not None:
+            cur = t["target"]
+        else:
+            return False
+    return False
+
+
 def _reviewed_premises(ctx, rep):
     """premises of the reviewed argument for buffer_master's `c.unwrap()` over the buffered children"""
     from rules.writer import local_sources
@@ -827,6 +863,70 @@ def _reviewed_premises(ctx, rep):
                 false_t = next((tg for v, tg in tt["targets"] if v == 0), None)
                 edge_t = true_t if want_true else false_t
                 if edge_t is not None and bm.edge_dominates((nxt, edge_t), mb):
+                    okA = True
+    if not okA:
+        # `match item { Ok(_) => roll up, Err(_) => .. }` / `matches!(item, Ok(_))`: the Ok edge of a switch on the discriminant of a Result
+        # taken out of the children dominates the roll-up
+        for mb, mt, mc in maps:
+            for x in sorted(bm.live_blocks()):
+                tt = bm.blocks[x]["term"]
+                if tt["k"] != "switch":
+                    continue
+                dis = [st for st in bm.blocks[x]["stmts"] if st["k"] == "assign" and st["rv"]["k"] == "discr"]
+                if not dis:
+                    continue
+                base = dis[-1]["rv"]["place"]["local"]
+                src = local_sources(bm, base)
+                if not any(("::get" in z or "Option::unwrap" in z or "::index" in z) for z in src):
+                    continue
+                ok_t = next((tg for v, tg in tt["targets"] if v == 0), None)
+                if ok_t is None and all(v == 1 for v, _ in tt["targets"]):
+                    ok_t = tt["otherwise"]
+                if ok_t is not None and bm.edge_dominates((x, ok_t), mb):
+                    okA = True
+    if not okA:
+        # the same through a boolean (`matches!(item, Ok(_))` stored or tested later): the roll-up is on the true edge of a switch on a local that
+        # is set to true only on the Ok edge of such a discriminant switch
+        def ok_edges():
+            out = []
+            for x in sorted(bm.live_blocks()):
+                tt = bm.blocks[x]["term"]
+                if tt["k"] != "switch":
+                    continue
+                dis = [st for st in bm.blocks[x]["stmts"] if st["k"] == "assign" and st["rv"]["k"] == "discr"]
+                if not dis:
+                    continue
+                src = local_sources(bm, dis[-1]["rv"]["place"]["local"])
+                if not any(("::get" in z or "Option::unwrap" in z or "::index" in z) for z in src):
+                    continue
+                ok_t = next((tg for v, tg in tt["targets"] if v == 0), None)
+                if ok_t is None and all(v == 1 for v, _ in tt["targets"]):
+                    ok_t = tt["otherwise"]
+                if ok_t is not None:
+                    out.append((x, ok_t))
+            return out
+        oks = ok_edges()
+        for mb, mt, mc in maps:
+            for x in sorted(bm.live_blocks()):
+                tt = bm.blocks[x]["term"]
+                if tt["k"] != "switch" or tt["discr"].get("k") not in ("copy", "move") or tt["discr"]["place"]["proj"]:
+                    continue
+                flag = tt["discr"]["place"]["local"]
+                true_t = tt["otherwise"] if all(v == 0 for v, _ in tt["targets"]) else next((tg for v, tg in tt["targets"] if v == 1), None)
+                if true_t is None or not bm.edge_dominates((x, true_t), mb):
+                    continue
+                sets = [(b2, st2) for b2, i2, st2 in bm.statements() if st2["k"] == "assign" and not st2["place"]["proj"] and st2["place"]["local"] == flag]
+                if not sets:
+                    continue
+                good = True
+                for b2, st2 in sets:
+                    rv = st2["rv"]
+                    if rv["k"] == "use" and rv["op"].get("k") == "const" and rv["op"].get("v") in (0, False):
+                        continue
+                    if rv["k"] == "use" and rv["op"].get("k") == "const" and rv["op"].get("v") in (1, True) and any(bm.edge_dominates(e, b2) for e in oks):
+                        continue
+                    good = False
+                if good:
                     okA = True
     rep.instance("buffer_master: roll-up guarded by is_ok() on the stopping item: %s" % okA)
     rep.oblige(okA, "REVIEWED-PREMISE|buffer_master|rollup-guard", bm.span, "the children are unwrapped on a path where the stopping item was not tested with is_ok()")
@@ -850,6 +950,8 @@ def _reviewed_premises(ctx, rep):
             for v, tg in tt["targets"]:
                 if v == 1 and tg not in loop:
                     okB = "explicit loop: the Err arm of the item match leaves the search loop"
+                elif v == 1 and _leaves_loop_via_flag(bm, tg, loop):
+                    okB = "explicit loop: the Err arm of the item match sets the flag that leaves the search loop"
     # B2: Iterator::position(pred) over the queue: the predicate answers true for every Err (abstract evaluation)
     if okB is None:
         import absrun
